@@ -360,15 +360,16 @@ def main(ctx):
         cnt["stake_move"] += bool(e["sh"]["moved"]) and x["rc"]["success"]
         cnt["transfer"] += len(e["req"]) >= 2 and x["rc"]["success"]
         cnt["pair"] += x["mid"]
-        created = x["tx"]["kind"] == "deploy" or bool(e["deployed"])
+        subdep = bool(e["deployed"]) or bool(e["sh"].get("deployed"))
+        created = x["tx"]["kind"] == "deploy" or subdep
         main = x.get("role") != "tail"
-        cnt["subdeploy_ok"] += x["tx"]["kind"] == "call" and x["rc"]["success"] and bool(e["deployed"])
+        cnt["subdeploy_ok"] += x["tx"]["kind"] == "call" and x["rc"]["success"] and subdep
         cnt["prefunded_toplevel_deploy_ok"] += bool(x.get("prefunded")) and main and x["tx"]["kind"] == "deploy" and x["rc"]["success"]
         cnt["prefunded_toplevel_deploy_failed"] += bool(x.get("prefunded")) and main and x["tx"]["kind"] == "deploy" and not x["rc"]["success"]
         cnt["prefunded_embedded_deploy_ok"] += bool(x.get("prefunded")) and main and x["tx"]["kind"] == "deploy" and x["rc"]["success"] and not x["tx"]["wasm"]
-        cnt["prefunded_subdeploy_ok"] += bool(x.get("prefunded")) and main and x["tx"]["kind"] == "call" and x["rc"]["success"] and bool(e["deployed"])
+        cnt["prefunded_subdeploy_ok"] += bool(x.get("prefunded")) and main and x["tx"]["kind"] == "call" and x["rc"]["success"] and subdep
         cnt["prefunded_in_same_block"] += bool(x.get("prefunded")) and main and x["op"]["pair"] in ("pf-mid", "pf-mid-emb") and x["rc"]["success"] and created
-        cnt["funded_in_same_tx_subdeploy_ok"] += x["op"]["m"] == "payspawn" and main and x["rc"]["success"] and bool(e["deployed"])
+        cnt["funded_in_same_tx_subdeploy_ok"] += x["op"]["m"] == "payspawn" and main and x["rc"]["success"] and subdep
         cnt["fail_after_writes"] += (not x["rc"]["success"]) and e["sh"]["ran"] and e["sh"]["ok"] and bool(e["sh"]["writes"])
         cnt["escrow_refund"] += (not x["rc"]["success"]) and bool(x["tx"]["amount"]) and (x["tx"]["kind"] == "call" or x["tx"]["wasm"])
         cnt["out_of_gas"] += (not x["rc"]["success"]) and "gas" in x["err"].lower()
